@@ -129,6 +129,7 @@ type c22Run struct {
 	oldest     *c22Blk
 	cancel     context.CancelFunc
 	stopped    bool // set once the scenario has been judged: the peers go silent and the witness is frozen
+	inflight   sync.WaitGroup
 }
 
 // chain index seen by the TimeValidityWindow
@@ -216,6 +217,8 @@ func (s *c22Run) FetchBlocksFromPeer(ctx context.Context, _ ids.NodeID, r *vw.Bl
 		s.mu.Unlock()
 		return nil, errors.New("scenario over")
 	}
+	s.inflight.Add(1)
+	defer s.inflight.Done()
 	n := s.reqs
 	s.reqs++
 	// requested heights never go up again; after height 0 there is nothing left to ask for
@@ -256,9 +259,7 @@ func (s *c22Run) FetchBlocksFromPeer(ctx context.Context, _ ids.NodeID, r *vw.Bl
 	s.mu.Unlock()
 
 	for _, nb := range fwd {
-		if err := s.syncer.UpdateSyncTarget(ctx, nb); err != nil {
-			s.flag("C22/syncer-error", "UpdateSyncTarget: "+err.Error())
-		}
+		// the model is updated first: UpdateSyncTarget may signal "done" (forward criterion) before it returns
 		s.mu.Lock()
 		s.store[nb.id] = nb
 		s.minNow = max(0, nb.ts-s.c.W)
@@ -266,6 +267,9 @@ func (s *c22Run) FetchBlocksFromPeer(ctx context.Context, _ ids.NodeID, r *vw.Bl
 			s.fwdDone = true
 		}
 		s.mu.Unlock()
+		if err := s.syncer.UpdateSyncTarget(ctx, nb); err != nil {
+			s.flag("C22/syncer-error", "UpdateSyncTarget: "+err.Error())
+		}
 	}
 	if len(fwd) > 0 {
 		s.mu.Lock()
@@ -480,6 +484,7 @@ func runC22(c *c22Case, rng *rand.Rand, st *c22Stats) (key, detail string) {
 	}
 	cancel()
 	s.snapshot(st)
+	s.inflight.Wait() // a request that was being answered when "done" was signalled (forward criterion) has finished
 
 	s.mu.Lock()
 	saved := append([]*c22Blk(nil), s.saved...)
@@ -641,7 +646,7 @@ func TestC22(t *testing.T) {
 		}
 	}
 
-	n := r.N(2000, 30000)
+	n := r.N(2000, 80000)
 	conc := r.N(350, 500)
 	srng := r.Rand("scenarios")
 	seeds := make(chan [2]uint64)
@@ -676,5 +681,5 @@ func TestC22(t *testing.T) {
 	for k, v := range st.behaviours {
 		r.Count("peer_"+k, v)
 	}
-	r.Finish(r.N(800, 10000))
+	r.Finish(r.N(800, 20000))
 }
